@@ -160,11 +160,16 @@ func RunDaemon() {
 		signal.Notify(sig, os.Interrupt, syscall.SIGTERM, syscall.SIGINT)
 
 		g.Add(func() error {
-			<-sig
-			ui.Info("Received SIGTERM signal, exiting...")
+			select {
+			case <-sig:
+				ui.Info("Received SIGTERM signal, exiting...")
+			case <-ctx.Done():
+			}
 			return nil
 		}, func(err error) {
-			defer close(sig)
+			// sig stays registered and open: further termination signals that arrive
+			// while the fans are being restored are absorbed instead of crashing
+			// (send on a closed channel) or killing the process
 			cancel()
 		})
 	}
